@@ -1,5 +1,5 @@
 (** Pins/C17.v — the statements of the C17 theorems, pinned. *)
-From PdfV Require Import Base.Prelude Gen.Generated XRef.Model XRef.Spec XRef.HeaderProofs XRef.FrontProofs Properties.C17.
+From PdfV Require Import Base.Prelude Gen.Generated XRef.Model XRef.Spec XRef.HeaderProofs XRef.FrontProofs XRef.LexShift XRef.At XRef.ParseShift XRef.PrefixProofs Syn.Prim Syn.Parser Properties.C17.
 Set Warnings "-notation-overridden".   (* also ends the import list for the dependency scanner of tools/vplib *)
 
 Check C17_marker_first_occurrence : forall pat p s, pat <> [] -> no_border pat = true ->
@@ -43,3 +43,19 @@ Check C17_resolve_no_panic : forall (value : Type) (obj_at : bytes -> N -> res v
   (forall fl v i, no_panic (member fl v i) \/ member fl v i = OutOfFuel) ->
   forall fuel file start t id,
   match resolve_ref value obj_at member fuel file start t id with Panic _ => False | _ => True end.
+Check C17_lexer_position : forall d s, next_word (shift_lx d s) = rmap (shift_word d) (next_word s).
+Check C17_parser_position : forall d fuel R cx flags depth s,
+  parse_fuel fuel R cx flags depth (shift_lx d s) = rmap (shift_pv d) (parse_fuel fuel R cx flags depth s).
+Check C17_xref_at_prefix : forall (R : resolver) (tid : dict -> N) (p f : bytes),
+  (forall e, tid (shift_dict (lenN p) e) = tid e) ->
+  forall pos, xref_at_tables R tid (p ++ f) (lenN p + pos) = xref_at_tables R tid f pos.
+Check C17_obj_at_prefix : forall (R : resolver) (p f : bytes) allow flags pos,
+  obj_at_parse R allow flags (p ++ f) (lenN p + pos) = rmap (shift_prim (lenN p)) (obj_at_parse R allow flags f pos).
+Check C17_tables_invariant : forall (R : resolver) (tid : dict -> N) allow flags (p f : bytes),
+  (forall e, tid (shift_dict (lenN p) e) = tid e) ->
+  lenN (p ++ f) < usize_max ->
+  starts_with xr_header f = true -> find_sub xr_header p = None -> lenN p + lenN xr_header <= xr_header_window ->
+  (forall s t i, load (xref_at_tables R tid) f = Ok (s, t, i) -> s = 0 /\ load (xref_at_tables R tid) (p ++ f) = Ok (lenN p, t, i)) /\
+  (forall t fuel id,
+     resolve_ref prim (obj_at_parse R allow flags) (fun _ _ _ => Err E_OTHER) fuel (p ++ f) (lenN p) t id
+     = rmap (shift_prim (lenN p)) (resolve_ref prim (obj_at_parse R allow flags) (fun _ _ _ => Err E_OTHER) fuel f 0 t id)).
